@@ -7,7 +7,11 @@
 (*   Check   skip the tick when it is older than the claim TTL (stale);                         *)
 (*   Claim   cluster.ClaimScheduleFire("<ref>@<T>", ttl): an NX put with expiry - exactly one   *)
 (*           node gets nil, the others ErrScheduleFireClaimed; a registry error delivers        *)
-(*           nothing on that node;                                                              *)
+(*           nothing on that node.  Outcome classes of the write: won, lost, err (fails, not    *)
+(*           applied), tmo (runs into the node's write timeout, not applied), tmoa (applied,    *)
+(*           but the acknowledgement is lost: the node sees the same timeout).  A node fires    *)
+(*           only if its claim was acknowledged as won.  "TimeoutWins" in Defects: a timed-out  *)
+(*           claim is treated as won;                                                           *)
 (*   Tell    only the winner delivers.                                                          *)
 (* One logical thread per (node, tick); steps of different threads interleave freely.           *)
 (* The claim key expires TTL after it was written.  Expiry is modelled under the ASSUMPTION     *)
@@ -53,15 +57,17 @@ Check(n, t, r) ==
           /\ out' = [out EXCEPT ![<<n, t>>] = IF r = "fresh" THEN "" ELSE "stale"]
   /\ UNCHANGED <<key, expired, told>>
 
-\* the NX put (r = "won" | "lost" | "err")
+\* the NX put (r = "won" | "lost" | "err" | "tmo" | "tmoa")
+ClaimOutcomes == {"won", "lost", "err", "tmo", "tmoa"}
+Acked(r) == r = "won" \/ ("TimeoutWins" \in Defects /\ r \in {"tmo", "tmoa"})
 Claim(n, t, r) ==
   /\ pc[<<n, t>>] = "claim"
-  /\ r = "err" => Faults
-  /\ r = "won" => ~key[K(t)]
+  /\ r \in {"err", "tmo", "tmoa"} => Faults
+  /\ r \in {"won", "tmoa"} => ~key[K(t)]
   /\ r = "lost" => key[K(t)]
-  /\ key' = IF r = "won" THEN [key EXCEPT ![K(t)] = TRUE] ELSE key
+  /\ key' = IF r \in {"won", "tmoa"} THEN [key EXCEPT ![K(t)] = TRUE] ELSE key
   /\ out' = [out EXCEPT ![<<n, t>>] = r]
-  /\ pc' = [pc EXCEPT ![<<n, t>>] = IF r = "won" /\ "ClaimAfterTell" \notin Defects THEN "tell" ELSE "done"]
+  /\ pc' = [pc EXCEPT ![<<n, t>>] = IF Acked(r) /\ "ClaimAfterTell" \notin Defects THEN "tell" ELSE "done"]
   /\ UNCHANGED <<expired, told>>
 
 Tell(n, t) ==
@@ -79,7 +85,7 @@ Expire(t) ==
 Next ==
   \/ \E n \in Nodes, t \in Ticks : Fire(n, t) \/ Tell(n, t)
   \/ \E n \in Nodes, t \in Ticks, r \in {"fresh", "stale"} : Check(n, t, r)
-  \/ \E n \in Nodes, t \in Ticks, r \in {"won", "lost", "err"} : Claim(n, t, r)
+  \/ \E n \in Nodes, t \in Ticks, r \in ClaimOutcomes : Claim(n, t, r)
   \/ \E t \in Ticks : Expire(t)
 
 Spec == Init /\ [][Next]_vars
@@ -93,6 +99,10 @@ Delivered == \A t \in Ticks : AllDone(t) /\ (\E n \in Nodes : out[<<n, t>>] = "w
 \* a tick that a node saw fresh and could claim without a registry error is won by someone
 NotStarved == \A t \in Ticks : AllDone(t) /\ (\E n \in Nodes : out[<<n, t>>] \in {"won", "lost"}) =>
                  (\E n \in Nodes : out[<<n, t>>] = "won") \/ (\E u \in Ticks : u # t /\ K(u) = K(t))
-NoStarvation == \A t \in Ticks : AllDone(t) /\ (\E n \in Nodes : out[<<n, t>>] \in {"won", "lost"}) => told[t] = 1
+\* (a claim that was applied but never acknowledged blocks the tick for everybody: nobody delivers it - accepted)
+NoStarvation == \A t \in Ticks : AllDone(t) /\ (\E n \in Nodes : out[<<n, t>>] \in {"won", "lost"})
+                                    /\ ~(\E n \in Nodes, u \in Ticks : K(u) = K(t) /\ out[<<n, u>>] = "tmoa") => told[t] = 1
+\* a node fires only if its claim was acknowledged as won
+FiresOnlyWon == "ClaimAfterTell" \in Defects \/ \A th \in Th : pc[th] = "tell" => out[th] = "won"
 TypeOK == \A th \in Th : pc[th] \in {"idle", "job", "claim", "tell", "done"}
 ====
